@@ -17,7 +17,7 @@ from ..runner import Entry, differential
 from . import c07_translate
 
 PRE = ("From Coq.Strings Require Import String.\nFrom EsVerif.Common Require Import Base Bytes.\n"
-       "From EsVerif.C07 Require Import Model Spec Exec.\n")
+       "From EsVerif.C07 Require Import Model Spec Verbose Swap Exec.\n")
 
 # ----------------------------------------------------------------------------
 # Coq term printers
@@ -461,6 +461,14 @@ def arr_out(f):
     return run_ok(lambda: from_np(f()))
 
 
+def untouched(a, j, what="input"):
+    """FRAME (C07_store_frame): an argument that the call may not write holds exactly the bytes it held before"""
+    now = from_np(a)
+    if now["shape"] != list(j["shape"]) or [(f["name"], f["type"], f["sub"], f["cells"]) for f in now["fields"]] != \
+            [(f["name"], f["type"], list(f["sub"]), list(f["cells"])) for f in j["fields"]]:
+        raise AssertionError("the call modified its %s array" % what)
+
+
 def must_be_new(res, *inputs):
     """"yields a NEW array": the result must not be (a view of) one of the inputs"""
     import numpy as np
@@ -596,6 +604,13 @@ def _regen_vals(r, c2):
         f = fs.get(nms[i] if i < len(nms) else None, {"type": "<i4", "sub": []})
         new.append(gen_dval(r, f["type"], c2["arr"]["shape"], f["sub"], forms=(v["form"],), native=v.get("native")))
     c2["vals"]["vals"] = new
+    if c2["vals"].get("tuple_of"):
+        tv = []
+        for i, v in enumerate(c2["vals"]["tuple_of"]):
+            f = fs.get(nms[i] if i < len(nms) else None, {"type": "<i4", "sub": []})
+            tv.append(gen_dval(r, f["type"], c2["arr"]["shape"], f["sub"], forms=(v["form"],), native=v.get("native")))
+        c2["vals"]["tuple_of"] = tv
+        c2["vals"]["vals"] = tv[:1]
 
 
 def history_variants(r, c, kind):
@@ -815,7 +830,10 @@ class _Select(Entry):
         for fs in (c["arr"]["fields"], [x for x in c["arr"]["fields"] if x["name"] in keep],
                    [x for x in c["arr"]["fields"] if x["name"] not in keep]):
             dirty_heap(nelem(c["arr"]["shape"]) * rowbytes(fs))
-        return must_be_new(f(a, nm), a)
+        try:
+            return must_be_new(f(a, nm), a)
+        finally:
+            untouched(a, c["arr"])
 
 
 class Extract(_Select):
@@ -905,11 +923,17 @@ class Add(Entry):
             elif kind == "dup-in-add":
                 add.append(dict(add[0], type=gen_type(r)))
             spelling = r.choice(["descr", "dtype", "native-order", "dict"])
-            dk = r.choice(["none", "none", "list", "list", "list", "single", "short", "long"])
+            dk = r.choice(["none", "none", "list", "list", "list", "single", "short", "long", "tuple"])
+            if dk == "tuple" and len(add) < 2:
+                dk = "list"
             c = {"arr": arr, "add": add, "spelling": spelling}
             if dk == "none":
                 c["defaults"] = None
                 c["omit_defaults"] = r.random() < 0.5          # defaults=None is the default
+            elif dk == "tuple":
+                # a tuple is not a list: wrapped as ONE value -> refused for >= 2 new fields (C07_tuple_values_rejected)
+                vals = [gen_dval(r, d["type"], arr["shape"], d["sub"], forms=("scalar",)) for d in add]
+                c["defaults"] = {"form": "single", "vals": vals[:1], "tuple_of": vals}
             elif dk == "single":
                 d = add[0]
                 c["defaults"] = {"form": "single", "vals": [gen_dval(r, d["type"], arr["shape"], d["sub"])]}
@@ -970,11 +994,17 @@ class Add(Entry):
                     d = c["add"][i] if i < len(c["add"]) else {"type": "<i4", "sub": []}
                     vs.append(dval_py(v, d["type"], c["arr"]["shape"], d["sub"]))
                 defaults = vs[0] if dv["form"] == "single" else vs
+                if dv.get("tuple_of"):
+                    defaults = tuple(dval_py(v, c["add"][i]["type"], c["arr"]["shape"], c["add"][i]["sub"])
+                                     for i, v in enumerate(dv["tuple_of"]))
             a = to_np(c["arr"])
             dirty_heap(nelem(c["arr"]["shape"]) * rowbytes(c["arr"]["fields"] + c["add"]))
-            if c.get("omit_defaults"):
-                return must_be_new(nu.add_fields(a, spec), a)
-            return must_be_new(nu.add_fields(a, spec, defaults=defaults), a)
+            try:
+                if c.get("omit_defaults"):
+                    return must_be_new(nu.add_fields(a, spec), a)
+                return must_be_new(nu.add_fields(a, spec, defaults=defaults), a)
+            finally:
+                untouched(a, c["arr"])
         return arr_out(f)
 
     def _args(self, c):
@@ -1052,7 +1082,11 @@ class Combine(Entry):
             arrs = [to_np(a) for a in c["arrs"]]
             if arrs:
                 dirty_heap(nelem(c["arrs"][0]["shape"]) * rowbytes([x for a in c["arrs"] for x in a["fields"]]))
-            res = nu.combine_fields(tuple(arrs) if c.get("container") == "tuple" else arrs)
+            try:
+                res = nu.combine_fields(tuple(arrs) if c.get("container") == "tuple" else arrs)
+            finally:
+                for x, jx in zip(arrs, c["arrs"]):
+                    untouched(x, jx)
             # (a one-element list is returned as it is: `return arrlist[0]`; not demanded to be a copy)
             return must_be_new(res, *arrs) if len(arrs) >= 2 else res
         return arr_out(f)
@@ -1081,7 +1115,7 @@ class Copy(Entry):
         for _ in range(ctx.n(220, 3000)):
             a1 = gen_array(r, ctx)
             kind = r.choice(["same-shape", "same-shape", "same-shape", "same-shape", "size-differs", "lead-1",
-                             "incompatible-shape", "disjoint", "all-common-permuted"])
+                             "incompatible-shape", "disjoint", "all-common-permuted", "order-differs", "order-differs"])
             shape = list(a1["shape"])
             n = nelem(shape)
             if kind == "size-differs":
@@ -1096,8 +1130,11 @@ class Copy(Entry):
             if kind == "all-common-permuted":      # exactly the same fields, in another order: matched by NAME
                 common, fs = list(a1["fields"]), []
             for f in common:          # same name, element type and sub-array shape; own data
-                g = {"name": f["name"], "type": f["type"], "sub": f["sub"],
-                     "cells": [gen_cell(r, f["type"], f["sub"]).hex() for _ in range(nelem(shape))]}
+                gt = f["type"]
+                if kind == "order-differs" and gt[0] in "<>" and r.random() < 0.7:
+                    gt = {"<": ">", ">": "<"}[gt[0]] + gt[1:]      # same type in the OTHER byte order: numpy converts
+                g = {"name": f["name"], "type": gt, "sub": f["sub"],
+                     "cells": [gen_cell(r, gt, f["sub"]).hex() for _ in range(nelem(shape))]}
                 fs.insert(r.randrange(0, len(fs) + 1), g)
             a2 = {"shape": shape, "layout": own["layout"], "fields": fs}
             cs.append({"a1": a1, "a2": a2, "family": "%s/%dd" % (kind, len(a1["shape"]))})
@@ -1118,15 +1155,19 @@ class Copy(Entry):
 
         def f():
             a2 = to_np(c["a2"], written=True)
-            nu.copy_fields(to_np(c["a1"]), a2)
+            a1 = to_np(c["a1"])
+            try:
+                nu.copy_fields(a1, a2)
+            finally:
+                untouched(a1, c["a1"], "arr1")
             return a2
         return arr_out(f)
 
     def term(self, c, out):
-        return "v_copy %s %s %s" % (carray(c["a1"]), carray(c["a2"]), cres(out, carray))
+        return "v_copy_sw %s %s %s" % (carray(c["a1"]), carray(c["a2"]), cres(out, carray))
 
     def show(self, c):
-        return "copy_fields %s %s" % (carray(c["a1"]), carray(c["a2"]))
+        return "copy_fields_sw %s %s" % (carray(c["a1"]), carray(c["a2"]))
 
     def nontrivial(self, c, out):
         n1 = set(f["name"] for f in c["a1"]["fields"])
@@ -1167,6 +1208,10 @@ class CopyByName(Entry):
             if vk == "list" and not vals:
                 va = {"form": "list", "vals": []}
             c = {"arr": arr, "names": na, "vals": va, "family": "%s/%s/vals=%s" % (kind, na["form"], vk)}
+            if vk == "list" and len(vals) >= 2 and len(vals) == len(sel) and na["form"] != "scalar" and r.random() < 0.15:
+                # a tuple of values is wrapped as ONE value -> length mismatch (C07_tuple_values_rejected)
+                c["vals"] = {"form": "single", "vals": vals[:1], "tuple_of": vals}
+                c["family"] = "%s/%s/vals=tuple" % (kind, na["form"])
             if vk == "list" and len(vals) == 1 and vals[0]["form"] == "scalar" and r.random() < 0.5:
                 c["vals_ndarray"] = True            # the values as a length-1 ndarray of the field's type
                 c["family"] += "-ndarray"
@@ -1194,6 +1239,12 @@ class CopyByName(Entry):
             if c.get("vals_ndarray"):
                 d = fs.get(c["names"]["names"][0], {"type": "<i4", "sub": []})
                 vs = np.array(vs, dtype=d["type"])
+            if c["vals"].get("tuple_of"):
+                tv = []
+                for i, v in enumerate(c["vals"]["tuple_of"]):
+                    d = fs.get(c["names"]["names"][i], {"type": "<i4", "sub": []})
+                    tv.append(dval_py(v, d["type"], c["arr"]["shape"], d["sub"]))
+                vs = [tuple(tv)]
             nu.copy_fields_by_name(a, names_py(c["names"]), vs[0] if c["vals"]["form"] == "single" else vs)
             return a
         return arr_out(f)
@@ -1254,7 +1305,10 @@ class Split(Entry):
                 kw["fields"] = None if c["names"] is None else names_py(c["names"])
             if not (c.get("omit_kw") and not c["getnames"]):
                 kw["getnames"] = c["getnames"]
-            res = nu.split_fields(a, **kw)
+            try:
+                res = nu.split_fields(a, **kw)
+            finally:
+                untouched(a, c["arr"])
             names = []
             if c["getnames"]:
                 res, nm = res
@@ -1470,11 +1524,14 @@ class Compare(Entry):
             saved = nu.stdout
             nu.stdout = io.StringIO()          # verbose=True only writes text; keep the check's output clean
             try:
+                a1, a2 = to_np(c["a1"]), to_np(c["a2"])
                 if c.get("omit_kw"):
-                    res = nu.compare_arrays(to_np(c["a1"]), to_np(c["a2"]))
+                    res = nu.compare_arrays(a1, a2)
                 else:
-                    res = nu.compare_arrays(to_np(c["a1"]), to_np(c["a2"]), verbose=c["verbose"],
-                                            ignore_missing=c["ignore_missing"])
+                    res = nu.compare_arrays(a1, a2, verbose=c["verbose"], ignore_missing=c["ignore_missing"])
+                self._log = nu.stdout.getvalue()
+                untouched(a1, c["a1"], "arr1")
+                untouched(a2, c["a2"], "arr2")
             finally:
                 nu.stdout = saved
             if res is not True and res is not False:
@@ -1495,7 +1552,95 @@ class Compare(Entry):
         return out[0] == "ok" and len(c["a1"]["fields"]) >= 2 and nelem(c["a1"]["shape"]) >= 2
 
 
-ENTRIES = [Extract(), Remove(), Reorder(), Add(), Combine(), Copy(), CopyByName(), Split(), SplitPlain(), Compare()]
+_EV = re.compile(
+    r"(?P<names>    Matching names\.{8})"
+    r"|(?P<only>\n        Field '(?P<on>[^']*)' found only in array(?P<ow>[12]))"
+    r"|(?P<nocheck>    Not checking that all fields names match\n)"
+    r"|(?P<field>    testing field: '(?P<fn>[^']*)'\n        shape\.{11})"
+    r"|(?P<shapediff>shapes differ\n)"
+    r"|(?P<elemdiff>\n        (?P<ek>\d+) elements in field '(?P<en>[^']*)' differ\n)"
+    r"|(?P<elems>        elements\.{8})"
+    r"|(?P<passed>All tests passed\n)"
+    r"|(?P<diffs>(?P<dk>\d+) differences found\n)"
+    r"|(?P<ok>OK\n?)|(?P<nl>\n)")
+
+
+def parse_report(txt):
+    """stdout of compare_arrays(verbose=True) -> events of Verbose.v (fails when a character is not accounted for)"""
+    ev, pos, state = [], 0, None
+    for m in _EV.finditer(txt):
+        if m.start() != pos:
+            raise AssertionError("unexpected text in the report: %r" % txt[pos:m.start()][:60])
+        pos = m.end()
+        k = m.lastgroup if m.lastgroup in ("names", "only", "nocheck", "field", "shapediff", "elemdiff", "elems", "passed",
+                                           "diffs", "ok", "nl") else \
+            [g for g in ("names", "only", "nocheck", "field", "shapediff", "elemdiff", "elems", "passed", "diffs", "ok", "nl")
+             if m.group(g) is not None][0]
+        if k == "names":
+            ev.append("ENames"); state = "names"
+        elif k == "only":
+            ev.append("(EOnly%s %s)" % (m.group("ow"), cstr(m.group("on"))))
+        elif k == "nocheck":
+            ev.append("ENoNameCheck")
+        elif k == "field":
+            ev.append("(EField %s)" % cstr(m.group("fn"))); state = "shape"
+        elif k == "shapediff":
+            ev.append("EShapeDiff"); state = None
+        elif k == "elems":
+            if state != "elems":
+                raise AssertionError("'elements' line out of place")
+        elif k == "elemdiff":
+            ev.append("(EElemDiff %s %s)" % (cz(int(m.group("ek"))), cstr(m.group("en")))); state = None
+        elif k == "passed":
+            ev.append("EPassed")
+        elif k == "diffs":
+            ev.append("(EDiffs %s)" % cz(int(m.group("dk"))))
+        elif k == "ok":
+            if state == "names":
+                ev.append("ENamesOK"); state = "names-end" if m.group("ok") == "OK" else None
+            elif state == "shape":
+                ev.append("EShapeOK"); state = "elems"
+            elif state == "elems":
+                ev.append("EElemOK"); state = None
+            else:
+                raise AssertionError("'OK' out of place")
+        elif k == "nl":
+            if state not in ("names", "names-end"):
+                raise AssertionError("newline out of place")
+            state = None
+    if pos != len(txt):
+        raise AssertionError("unexpected text at the end of the report: %r" % txt[pos:][:60])
+    return ev
+
+
+class CompareVerbose(Compare):
+    """compare_arrays(verbose=True): verdict and the report written to stdout against Verbose.compare_arrays_v"""
+    name = "compare_arrays_verbose"
+
+    def cases(self, ctx, round=0):
+        keep = []
+        for c in Compare.cases(self, ctx, round):
+            if str(c.get("family", "")).startswith(("long", "seq:")) or len(keep) >= ctx.n(70, 900):
+                continue
+            c = dict(c, verbose=True, omit_kw=False, family="verbose:" + str(c.get("family")))
+            keep.append(c)
+        return keep
+
+    def impl1(self, c):
+        out = Compare.impl1(self, c)
+        if out[0] != "ok":
+            return out
+        return run_ok(lambda: {"res": out[1], "log": parse_report(self._log)})
+
+    def term(self, c, out):
+        return "v_compare_v %s %s" % (self._args(c), cres(out, lambda o: "(%s, [%s])" % (cbool(o["res"]), "; ".join(o["log"]))))
+
+    def show(self, c):
+        return "compare_arrays_v %s %s true %s" % (carray(c["a1"]), carray(c["a2"]), cbool(c["ignore_missing"]))
+
+
+ENTRIES = [Extract(), Remove(), Reorder(), Add(), Combine(), Copy(), CopyByName(), Split(), SplitPlain(), Compare(),
+           CompareVerbose()]
 for _e in ENTRIES:
     type(_e).impl = _impl_with_history
     type(_e).classify = _classify
